@@ -246,6 +246,11 @@ func (batch *Batch) readMessage(
 
 	var lastOffset int64
 	offset, lastOffset, timestamp, headers, err = batch.msgs.readMessage(batch.offset, key, val)
+	if last, ok := batch.msgs.skippedEmptyBatch(); ok && last >= batch.offset {
+		// A batch emptied by log compaction was fully received: the next
+		// record is after it, whatever comes next in the response.
+		batch.offset = last + 1
+	}
 	switch {
 	case err == nil:
 		batch.offset = offset + 1
